@@ -431,7 +431,7 @@ def gen_object_cases(chk):
         dz = 1506.759067 / nz
         dt = rng.choice([-1, 1]) * rng.choice([2.0, 0.37 * dz, 1.3 * dz, dz * nz * 0.4, dz / 7.32, 3 * dz / 7.32, dz * 0.5])
         iota = [0.0, 0.8, -1.3][k % 3]
-        case = {'seed': chk.seed * 31 + k, 'npts': npts, 'degrees': [3, degq, 3, 3], 'uniform': uni, 'dt': dt, 'iota': iota,
+        case = {'seed': chk.seed * 31 + k, 'npts': npts, 'degrees': [3, degq, 3 if k % 3 else [5, 1, 4][k % 9 // 3], 3], 'uniform': uni, 'dt': dt, 'iota': iota,
                 'slope': (0.05 if k % 5 == 4 else None), 'nsteps': 4 if big else 3, 'k': k, 'dom': None}
         if k % 5 == 2:
             # whole-cell displacements on a real object: dz = 1/2, v = -4..4 (degree 1: Greville = break points),
